@@ -211,3 +211,60 @@ def fuzz_c03(pid, stage, tier, seed, outdir, chk):
         merged["violation_counts"][k] = merged["violation_counts"].get(k, 0) + 1
     merged["wall"] = time.time() - t0
     return merged
+
+
+def unsafe_coverage(pid, stage, tier, seed, outdir, chk):
+    """Which `unsafe` sites of the crate did the C03 workloads actually execute? (source-based coverage, nightly)"""
+    import subprocess, time, glob, re, shutil
+    t0 = time.time()
+    merged = chk.new_merge()
+    merged["stage"] = "coverage/unsafe sites reached by C03-sessions + C03-components"
+    merged["stage_extra"] = {}
+    tdir = os.path.join(chk.BUILD, "cov")
+    prof = os.path.join(outdir, "prof")
+    shutil.rmtree(prof, ignore_errors=True)
+    os.makedirs(prof, exist_ok=True)
+    env = dict(chk.ENV_BASE, CARGO_TARGET_DIR=tdir, RUSTFLAGS="-Cinstrument-coverage")
+    p = subprocess.run(["cargo", "+nightly", "build", "--offline", "--bin", "vrun"], cwd=chk.HARNESS, env=env, stdout=subprocess.PIPE, stderr=subprocess.STDOUT, text=True)
+    if p.returncode != 0:
+        merged["inconclusive"].append("coverage build failed: " + p.stdout[-400:])
+        return merged
+    binary = os.path.join(tdir, "debug", "vrun")
+    renv = dict(chk.ENV_BASE, LLVM_PROFILE_FILE=os.path.join(prof, "p-%p-%m.profraw"))
+    for wl, scale in (("C03-sessions", "0.2"), ("C03-components", "0.5"), ("C14", "1"), ("C11", "0.02")):
+        subprocess.run([binary, wl, "--tier", "quick", "--seed", str(seed), "--scale", scale, "--out", os.path.join(prof, wl + ".json")], env=renv, stdout=subprocess.DEVNULL, stderr=subprocess.DEVNULL, timeout=900)
+    sysroot = subprocess.run(["rustc", "+nightly", "--print", "sysroot"], stdout=subprocess.PIPE, text=True).stdout.strip()
+    tools = os.path.join(sysroot, "lib", "rustlib", "x86_64-unknown-linux-gnu", "bin")
+    pd = os.path.join(prof, "all.profdata")
+    r = subprocess.run([os.path.join(tools, "llvm-profdata"), "merge", "-sparse", "-o", pd] + glob.glob(os.path.join(prof, "*.profraw")), stdout=subprocess.PIPE, stderr=subprocess.STDOUT, text=True)
+    if r.returncode != 0:
+        merged["inconclusive"].append("llvm-profdata failed: " + r.stdout[-300:])
+        return merged
+    srcs = sorted(glob.glob("/repo/embedded-cli/src/*.rs"))
+    r = subprocess.run([os.path.join(tools, "llvm-cov"), "export", "-format=lcov", "-instr-profile", pd, binary] + srcs, stdout=subprocess.PIPE, stderr=subprocess.PIPE, text=True)
+    hits = {}
+    cur = None
+    for line in r.stdout.splitlines():
+        if line.startswith("SF:"):
+            cur = line[3:]
+        elif line.startswith("DA:") and cur:
+            ln, cnt = line[3:].split(",")[:2]
+            hits[(cur, int(ln))] = max(hits.get((cur, int(ln)), 0), int(cnt))
+    sites, reached, missed = 0, 0, []
+    for f in srcs:
+        lines = open(f).read().splitlines()
+        test_at = next((i for i, l in enumerate(lines) if l.startswith("mod tests")), len(lines))
+        for i, l in enumerate(lines[:test_at]):
+            if re.search(r"\bunsafe\b", l) and "SAFETY" not in l and not l.strip().startswith("//"):
+                sites += 1
+                # the site counts as reached when its line or one of the next few lines executed
+                if any(hits.get((f, i + 1 + d), 0) > 0 for d in range(0, 6)):
+                    reached += 1
+                else:
+                    missed.append("%s:%d" % (os.path.basename(f), i + 1))
+    merged["counters"]["c03.unsafe_sites_total"] = sites
+    merged["counters"]["c03.unsafe_sites_reached"] = reached
+    merged["stage_extra"]["unsafe_sites_not_reached"] = missed
+    merged["evaluations"] = sites
+    merged["wall"] = time.time() - t0
+    return merged
